@@ -95,6 +95,7 @@ doc = head + '\n\n' + section4() + '\n' + tail
 doc = doc.replace('<!--COUNTS-->', counts())
 doc = re.sub(r'<!--MUTANTS:round=(\w+)-->', lambda m: mutants(m.group(1)), doc)
 doc = doc.replace('<!--DEFECTS-REINTRODUCED-->', reintroduced())
+doc = doc.replace('<!--UNDETECTED-->', ', '.join(k for k in sorted(metas()) if re.fullmatch(r'C\d\d[abc]\d?', k) and not metas()[k].get('expected_detection')))
 kf = json.load(open(f'{V}/known_findings.json'))['findings']
 doc = doc.replace('<!--ND-->', str(len(set(f['commit'] for f in kf if f['status'] == 'fixed'))))
 vi = json.load(open(f'{V}/selftest/variants/index.json')); bi = json.load(open(f'{V}/selftest/benign/index.json'))
